@@ -116,6 +116,7 @@ pub fn spaces(tier: Tier, _seed: u64) -> Vec<Box<dyn Space>> {
         gprog::spines(0, false, true, true, oracle),
         gprog::spines(1, false, true, true, oracle),
         gprog::spines(2, false, true, true, oracle),
+        gprog::spines(3, false, true, true, oracle),
         gprog::grid(0, true, true, oracle),
         gprog::grid(1, true, true, oracle),
         gprog::sequences(1, true, true, oracle),
@@ -127,7 +128,7 @@ pub fn spaces(tier: Tier, _seed: u64) -> Vec<Box<dyn Space>> {
         Box::new(crate::props::c18::Configs { ndirs: 1, nfiles: 3 }),
     ];
     if tier.is_thorough() {
-        v.push(gprog::spines(3, false, true, true, oracle));
+        v.push(gprog::grid(2, true, true, oracle));
         v.push(gprog::spines(4, true, true, true, oracle));
         v.push(gprog::spines(5, true, true, true, oracle));
         v.push(gprog::sequences(3, true, true, oracle));
